@@ -29,6 +29,11 @@ func (m *MinimalJobRepresentatives) IsEasierToSchedule(otherJob *podgroup_info.P
 	if !found {
 		return true, nil
 	}
+	if otherJob.IsPreemptibleJob() && !representative.IsPreemptibleJob() {
+		// A non-preemptible job must also keep its queues within their deserved quota, so its failure
+		// says nothing about a preemptible job of the same shape.
+		return true, nil
+	}
 
 	return jobEasierToScheduleComparison(otherJob, representative), representative
 }
